@@ -584,3 +584,13 @@ package encoder
 //@   callassert compact: apartC(arg1, bb)
 //@   assumecalls compact: the output buffer and the pooled marshal buffer are distinct pooled arrays and user code (MarshalJSON) does not exchange them
 //@   assigns all
+
+//@ func AppendMarshalJSONIndent(ctx, code, b, v) (out, err)
+//@   props C12
+//@   nosafety
+//@   requires ctx != nil && code != nil && ctx.Option != nil
+// assumed: what a marshaler returns is not the context's pooled buffer
+//@   postassume MarshalJSON: apartC(ctx.MarshalBuf, result0)
+//@   callassert doIndent: apartC(arg1, bb)
+//@   assumecalls doIndent: the output buffer and the pooled marshal buffer are distinct pooled arrays and user code (MarshalJSON) does not exchange them
+//@   assigns all
